@@ -444,6 +444,12 @@ namespace chaiscript {
           , m_f(t_f)
           , m_args(t_args) {
         assert(m_f->get_arity() < 0 || m_f->get_arity() == static_cast<int>(m_args.size()));
+
+        // a bound argument is handed to every later call: it is a stored value, not a pending
+        // return value that the first callee may adopt (and then modify) as its own
+        for (const auto &arg : m_args) {
+          arg.reset_return_value();
+        }
       }
 
       bool operator==(const Proxy_Function_Base &t_f) const noexcept override { return &t_f == this; }
